@@ -150,7 +150,11 @@ impl<R: RealNumberInternalTrait> std::ops::Add<Number<R>> for Number<R> {
     type Output = Number<R>;
     fn add(self, rhs: Number<R>) -> Number<R> {
         match upcast_oprands((self, rhs)) {
-            NumberBinaryOperand::Integer(a, b) => Number::Integer(a + b),
+            NumberBinaryOperand::Integer(a, b) => match a.checked_add(b) {
+                Some(result) => Number::Integer(result),
+                // the exact result does not fit: nearest inexact number instead of overflow
+                None => Number::Real(R::from(a).unwrap() + R::from(b).unwrap()),
+            },
             NumberBinaryOperand::Real(a, b) => Number::Real(a + b),
             NumberBinaryOperand::Rational(a1, a2, b1, b2) => {
                 let (a1, a2, b1, b2) = (a1 as i128, a2 as i128, b1 as i128, b2 as i128);
@@ -164,7 +168,11 @@ impl<R: RealNumberInternalTrait> std::ops::Sub<Number<R>> for Number<R> {
     type Output = Number<R>;
     fn sub(self, rhs: Number<R>) -> Number<R> {
         match upcast_oprands((self, rhs)) {
-            NumberBinaryOperand::Integer(a, b) => Number::Integer(a - b),
+            NumberBinaryOperand::Integer(a, b) => match a.checked_sub(b) {
+                Some(result) => Number::Integer(result),
+                // the exact result does not fit: nearest inexact number instead of overflow
+                None => Number::Real(R::from(a).unwrap() - R::from(b).unwrap()),
+            },
             NumberBinaryOperand::Real(a, b) => Number::Real(a - b),
             NumberBinaryOperand::Rational(a1, a2, b1, b2) => {
                 let (a1, a2, b1, b2) = (a1 as i128, a2 as i128, b1 as i128, b2 as i128);
@@ -178,7 +186,11 @@ impl<R: RealNumberInternalTrait> std::ops::Mul<Number<R>> for Number<R> {
     type Output = Number<R>;
     fn mul(self, rhs: Number<R>) -> Number<R> {
         match upcast_oprands((self, rhs)) {
-            NumberBinaryOperand::Integer(a, b) => Number::Integer(a * b),
+            NumberBinaryOperand::Integer(a, b) => match a.checked_mul(b) {
+                Some(result) => Number::Integer(result),
+                // the exact result does not fit: nearest inexact number instead of overflow
+                None => Number::Real(R::from(a).unwrap() * R::from(b).unwrap()),
+            },
             NumberBinaryOperand::Real(a, b) => Number::Real(a * b),
             NumberBinaryOperand::Rational(a1, a2, b1, b2) => {
                 Number::normalized_ratio(a1 as i128 * b1 as i128, a2 as i128 * b2 as i128)
@@ -233,7 +245,10 @@ impl<R: RealNumberInternalTrait> Number<R> {
 
     pub fn abs(self) -> Number<R> {
         match self {
-            Number::Integer(num) => Number::Integer(num.abs()),
+            Number::Integer(num) => match num.checked_abs() {
+                Some(result) => Number::Integer(result),
+                None => Number::Real(R::from(num).unwrap().abs()),
+            },
             Number::Real(num) => Number::Real(num.abs()),
             Number::Rational(a, b) => {
                 Number::normalized_ratio((a as i128).abs(), (b as i128).abs())
